@@ -136,6 +136,8 @@ def to_term(env, a, ty):
         return to_term(env, a[1], ty) ** a[2]
     if k == "/":
         return to_term(env, a[1], ty) / T.Number(env.T[ty], a[2])
+    if k == "^e":       # exponent given as a closed nat expression (e.g. 3 - 3)
+        return to_term(env, a[1], ty) ** to_term(env, a[2], "nat")
     if k == "app":
         return env.v[a[1]](to_term(env, a[2], ty))
     raise TypeError(a)
@@ -247,6 +249,8 @@ def rearrange(rng, a, ty, p=0.5):
             b = ("*", base, ("^", a[1], a[2] - 1)) if a[2] > 2 else ("*", base, a[1])
         else:
             b = ("^", base, a[2])
+    elif k == "^e":
+        b = ("^e", a[1] if ty != "real" else rearrange(rng, a[1], ty, p), a[2])
     elif k == "/":
         x = rearrange(rng, a[1], ty, p)
         b = ("*", x, ("c", Fraction(1, 1) / a[2])) if ty == "real" and rng.random() < p * 0.5 else ("/", x, a[2])
@@ -461,8 +465,17 @@ def judge(env, ctx, label, ce, t, in_domain=True, limit=20, record=True):
         return Outcome("timeout")
     except Exception as e:  # noqa
         if env.own_error(e):
-            # eval, where overridden, must not claim an equation the conversion cannot prove...
-            # (not demanded by the property text: only counted)
+            # the fast evaluation, where the class has one, must not report an equation the
+            # conversion cannot prove: "eval succeeds, get_proof_term raises" is a disagreement
+            if overrides_eval(env, cv):
+                try:
+                    with time_limit(limit):
+                        th2 = cv.eval(t)
+                    return viol("eval-without-proof", "eval reports %s but get_proof_term raises %s" % (th2, type(e).__name__))
+                except Timeout:
+                    pass
+                except Exception:  # noqa   both refuse
+                    pass
             return Outcome("own-error:" + type(e).__name__)
         if in_domain:
             return viol("crash:" + type(e).__name__, "get_proof_term raised %r" % (e,))
@@ -773,7 +786,10 @@ def make_gens(env):
 
     @reg("data.nat.nat_conv")
     def _(rng):
-        return cls("data.nat.nat_conv"), to_term(env, gen_arith(rng, "nat", rng.randint(0, 4), closed=True, ops="++**S"), "nat"), True
+        # with subtraction now and then: nat_eval computes it, the conversion has no rule for it,
+        # so both eval and get_proof_term must refuse
+        ops = "++**S" if rng.random() < 0.75 else "++**S-"
+        return cls("data.nat.nat_conv"), to_term(env, gen_arith(rng, "nat", rng.randint(0, 4), closed=True, ops=ops), "nat"), True
 
     @reg("data.nat.nat_eval_conv")
     def _(rng):
@@ -1431,9 +1447,9 @@ def stage_canon(ctx, env, only=None):
             t1, t2 = to_term(env, a, ty), to_term(env, b, ty)
             ok = canon_pair(env, ctx, label, ce, t1, t2, "rearrangements of one polynomial")
             if ok and label == "data.nat.norm_full":
-                macro_pair(env, ctx, "nat_norm", t1, t2)
+                macro_judge(env, ctx, "nat_norm", t1, t2, True, "rearrangement")
             if ok and label == "data.real.real_norm_conv":
-                macro_pair(env, ctx, "real_norm", t1, t2)
+                macro_judge(env, ctx, "real_norm", t1, t2, True, "rearrangement")
     for label, (ce, op, kind) in PROP_NORMALISERS.items():
         if only and label not in only:
             continue
@@ -1690,6 +1706,410 @@ def stage_corr_conv(ctx, env):
                 ctx.coverage["disagreements_checked"] += 1
                 # failing-input search: the property oracle on exactly this input
                 judge(env, ctx, "logic.conv.%s" % ce[0], model_ce_to_impl(ce), t)
+
+
+# ====================================================================== independent polynomial evaluator
+class Poly:
+    """Exact-rational multivariate polynomials, written for this harness only (nothing of util/poly.py
+    or of the normalisers is used).  A polynomial is a dict {monomial: Fraction}, a monomial a sorted
+    tuple of (atom key, power >= 1); atoms are whatever the normaliser of the type leaves opaque, keyed
+    by the raw syntax tree.  Conventions are those of the library, not of analysis: p ^ 0 = 1 for
+    EVERY p (theorems nat_power_def_1 / real_nat_power_def_1), also for the zero polynomial.
+    nat: `a - b` and `a ^ n` are opaque atoms (norm_full has no rule for them, also when a and b are
+    numerals).  int: `a ^ n` is only generated with a variable base and n >= 1."""
+
+    def __init__(self, ty):
+        self.ty = ty
+        self.atoms = {}
+
+    def key(self, a):
+        k = json.dumps(a, default=str)
+        self.atoms[k] = a
+        return k
+
+    @staticmethod
+    def const(c):
+        c = Fraction(c)
+        return {(): c} if c != 0 else {}
+
+    @staticmethod
+    def add(p, q, sign=1):
+        r = dict(p)
+        for m, c in q.items():
+            v = r.get(m, 0) + sign * c
+            if v == 0:
+                r.pop(m, None)
+            else:
+                r[m] = v
+        return r
+
+    @staticmethod
+    def mul(p, q):
+        r = {}
+        for m1, c1 in p.items():
+            for m2, c2 in q.items():
+                d = dict(m1)
+                for k, e in m2:
+                    d[k] = d.get(k, 0) + e
+                m = tuple(sorted(d.items()))
+                v = r.get(m, 0) + c1 * c2
+                if v == 0:
+                    r.pop(m, None)
+                else:
+                    r[m] = v
+        return r
+
+    def power(self, p, n):
+        r = {(): Fraction(1)}          # p ^ 0 = 1, also for p = 0
+        for _ in range(n):
+            r = self.mul(r, p)
+        return r
+
+    def atom(self, a):
+        return {((self.key(a), 1),): Fraction(1)}
+
+    @staticmethod
+    def nat_value(e):
+        """Value of a closed nat expression (truncated subtraction), None if not closed."""
+        k = e[0]
+        if k == "c":
+            return e[1]
+        if k in ("+", "*", "-"):
+            x, y = Poly.nat_value(e[1]), Poly.nat_value(e[2])
+            if x is None or y is None:
+                return None
+            return x + y if k == "+" else x * y if k == "*" else max(0, x - y)
+        if k == "S":
+            x = Poly.nat_value(e[1])
+            return None if x is None else x + 1
+        return None
+
+    def ev(self, a):
+        k, ty = a[0], self.ty
+        if k == "c":
+            return self.const(a[1])
+        if k in ("v", "app"):
+            return self.atom(a)
+        if k == "+":
+            return self.add(self.ev(a[1]), self.ev(a[2]))
+        if k == "*":
+            return self.mul(self.ev(a[1]), self.ev(a[2]))
+        if k == "S":
+            return self.add(self.ev(a[1]), self.const(1))
+        if k == "-":
+            if ty == "nat":
+                return self.atom(a)
+            return self.add(self.ev(a[1]), self.ev(a[2]), -1)
+        if k == "neg":
+            return self.mul(self.const(-1), self.ev(a[1]))
+        if k == "/":
+            return self.mul(self.const(Fraction(1) / a[2]), self.ev(a[1]))
+        if k == "^":
+            if ty == "nat":
+                return self.atom(a)
+            return self.power(self.ev(a[1]), a[2])
+        if k == "^e":
+            n = self.nat_value(a[2])
+            if ty == "nat" or n is None:
+                return self.atom(a)
+            return self.power(self.ev(a[1]), n)
+        raise TypeError(a)
+
+    def render(self, p, rng):
+        """A syntax tree for p that has nothing to do with how p was obtained: monomials in random
+        order, random association, powers written as powers (int, real) or products (nat)."""
+        mons = []
+        for m, c in p.items():
+            fs = []
+            for k, e in m:
+                at = self.atoms[k]
+                if e == 1:
+                    fs.append(at)
+                elif self.ty == "nat" or rng.random() < 0.3:
+                    fs.extend([at] * e)
+                else:
+                    fs.append(("^", at, e))
+            rng.shuffle(fs)
+            if c != 1 or not fs:
+                cc = ("c", c.numerator if c.denominator == 1 else c)
+                if fs and rng.random() < 0.5:
+                    fs.append(cc)
+                else:
+                    fs.insert(0, cc)
+            mons.append(build_assoc(rng, "*", fs))
+        if not mons:
+            return ("c", 0)
+        rng.shuffle(mons)
+        return build_assoc(rng, "+", mons)
+
+    def perturb(self, p, rng):
+        """A different polynomial close to p."""
+        q = dict(p)
+        r = rng.random()
+        if q and r < 0.45:
+            q.pop(rng.choice(sorted(q, key=repr)))
+        elif q and r < 0.8:
+            m = rng.choice(sorted(q, key=repr))
+            q[m] = q[m] + 1
+            if q[m] == 0:
+                q[m] = Fraction(2)
+        else:
+            q = self.add(q, self.const(1))
+        return q if q != p else self.add(p, self.const(1))
+
+
+def gen_cancel(rng, ty, depth):
+    """Arithmetic syntax trees with cancellation placed systematically: t - t, t + (-t), a*b - b*a
+    (int, real), t * 0, 0 * t (all types) as summands, as factors and -- real -- as BASES of powers with
+    exponent 0, 1, 2 and with exponents written as n - n, n - (n + 1), (n + 1) - n; the constants 0 and 1
+    in every position.  (t / t is not generated: the code makes no claim about it.)"""
+    V = TYVARS[ty]
+
+    def leaf():
+        r = rng.random()
+        if r < 0.45:
+            return ("v", rng.choice(V))
+        if r < 0.7:
+            return ("c", rng.choice([0, 1]))
+        return ("c", gen_num(rng, ty))
+
+    def zero(d):
+        t = node(d - 1)
+        cs = [("*", t, ("c", 0)), ("*", ("c", 0), t), ("c", 0)]
+        if ty != "nat":
+            u = node(d - 1)
+            cs += [("-", t, t), ("+", t, ("neg", t)), ("-", ("*", t, u), ("*", u, t)), ("+", ("neg", t), t)]
+        return rng.choice(cs)
+
+    def natexp():
+        n = rng.randint(0, 3)
+        return rng.choice([("-", ("c", n), ("c", n)), ("-", ("c", n), ("c", n + 1)), ("-", ("c", n + 1), ("c", n)),
+                           ("+", ("c", 1), ("c", 1)), ("c", 0), ("c", 1), ("-", ("c", n + 2), ("c", n))])
+
+    def node(d):
+        if d <= 0 or rng.random() < 0.2:
+            return leaf()
+        c = rng.randint(0, 11)
+        if c <= 1:
+            return ("+", node(d - 1), node(d - 1))
+        if c <= 3:
+            return ("*", node(d - 1), node(d - 1))
+        if c == 4:
+            return rng.choice([("+", node(d - 1), zero(d)), ("+", zero(d), node(d - 1))])
+        if c == 5:
+            return rng.choice([("*", node(d - 1), zero(d)), ("*", zero(d), node(d - 1))])
+        if c == 6:
+            one = rng.choice([("c", 1)] + ([("^", zero(d), 0), ("^", node(d - 1), 0), ("^e", zero(d), ("-", ("c", 2), ("c", 2)))]
+                                            if ty == "real" else []))
+            return rng.choice([("*", node(d - 1), one), ("*", one, node(d - 1))])
+        if c == 7 and ty == "real":
+            base = rng.choice([zero(d), node(d - 1), ("c", 0), ("c", 1)])
+            return ("^", base, rng.choice([0, 0, 1, 2])) if rng.random() < 0.6 else ("^e", base, natexp())
+        if c == 7 and ty == "int":
+            return ("^", ("v", rng.choice(V)), rng.choice([1, 2, 3]))
+        if c == 8 and ty != "nat":
+            return ("-", node(d - 1), node(d - 1))
+        if c == 9 and ty != "nat":
+            return ("neg", node(d - 1))
+        if c == 10 and ty == "nat":
+            return ("S", node(d - 1))
+        if c == 10 and ty == "real":
+            return ("/", node(d - 1), rng.choice([2, 3, -2]))
+        return zero(d)
+    return node(depth)
+
+
+def gen_nat_opaque(rng):
+    """nat goals around what norm_full treats as atoms: truncated subtraction of numerals and of
+    closed expressions, powers; one side has the atom, the other its VALUE (so convert_to_poly, which
+    folds constant subtractions, equates what the normaliser cannot prove)."""
+    x = ("v", rng.choice(TYVARS["nat"]))
+    a, b = rng.randint(0, 6), rng.randint(0, 6)
+    sub = rng.choice([("-", ("c", a), ("c", b)), ("-", ("+", ("c", a), ("c", 2)), ("+", ("c", 1), ("c", b))),
+                      ("-", ("*", ("c", a), ("c", 2)), ("c", b)), ("-", ("c", a), ("c", a))])
+    val = ("c", Poly.nat_value(sub))
+    ctxs = [lambda h: ("+", x, h), lambda h: ("*", h, x), lambda h: ("+", ("*", x, h), ("v", "n")), lambda h: h,
+            lambda h: ("S", ("+", h, x))]
+    c = rng.choice(ctxs)
+    return c(sub), c(val)
+
+
+MACRO_TY = {"nat_norm": "nat", "real_norm": "real"}
+
+
+def macro_judge(env, ctx, macro, t1, t2, equal, why):
+    """A macro that decides `t1 = t2`: its fast evaluation and its checked proof term must report the
+    same sequent or both refuse; `equal` is the verdict of the independent evaluator (None: no verdict).
+    real_norm is trusted (level 0, no proof term): its evaluation is judged by the evaluator alone."""
+    goal = env.term.Eq(t1, t2)
+    replay = {"kind": "macro", "macro": macro, "t1": tj(t1), "t2": tj(t2), "equal": equal}
+    stats = ctx.coverage.setdefault("decision_procedures", {}).setdefault(macro + " (macro)", {})
+
+    def bump(k):
+        stats[k] = stats.get(k, 0) + 1
+
+    def viol(defect, what):
+        bump("VIOLATION:" + defect)
+        ctx.violation("%s-macro:%s" % (macro, defect), "%s on %s (%s): %s" % (macro, goal, why, what), replay)
+
+    m = env.theory.get_macro(macro)
+    ev = pf = None
+    ev_err = pf_err = None
+    try:
+        with time_limit(60):
+            ev = m.eval(goal, [])
+    except Timeout:
+        return
+    except Exception as e:  # noqa
+        ev_err = e
+        if not env.own_error(e):
+            return viol("crash:" + type(e).__name__, "eval raised %r" % (e,))
+    has_proof = macro != "real_norm"      # level 0, get_proof_term raises NotImplementedError by design
+    if has_proof:
+        try:
+            with time_limit(60):
+                pt = m.get_proof_term(goal, [])
+                pf = env.theory.check_proof(pt.export(), env.report.ProofReport(), check_level=0)
+        except Timeout:
+            return
+        except Exception as e:  # noqa
+            pf_err = e
+            if not env.own_error(e):
+                return viol("crash:" + type(e).__name__, "get_proof_term / check_proof raised %r" % (e,))
+        if ev is not None and pf is None:
+            return viol("eval-without-proof", "the fast evaluation reports %s but the proof term fails: %s: %s"
+                        % (ev, type(pf_err).__name__, str(pf_err)[:120]))
+        if ev is None and pf is not None:
+            return viol("proof-without-eval", "the proof term proves %s but the fast evaluation fails: %r" % (pf, ev_err))
+        if ev is not None and ev != pf:
+            return viol("eval-differs", "eval reports %s, the checked proof term %s" % (ev, pf))
+    accepted = ev is not None
+    if accepted and (ev.prop != goal or ev.hyps):
+        return viol("wrong-sequent", "reports %s" % ev)
+    bump("accepted" if accepted else "refused")
+    if equal is True and not accepted:
+        return viol("rejects-equal-polynomials", "the two sides are the same polynomial")
+    if equal is False and accepted:
+        return viol("accepts-different-polynomials", "the two sides are different polynomials")
+    ctx.count("macro:%s:%s" % (macro, "accepted" if accepted else "refused"))
+
+
+EVAL_NORMALISERS = {
+    "data.nat.norm_full": ("nat", "nat_norm"),
+    "data.integer.simp_full": ("int", None),
+    "data.integer.int_norm_conv": ("int", None),
+    "data.real.real_norm_conv": ("real", "real_norm"),
+}
+
+
+def stage_evaluator(ctx, env):
+    """Cancellation-rich expressions against an independently rendered copy of their polynomial (same
+    normal form demanded, refusal is a violation) and against a perturbed polynomial (different normal
+    form demanded); the deciding macros on the same pairs, fast evaluation against checked proof term."""
+    n = ctx.scale(70, 1500)
+    dp = ctx.coverage.setdefault("decision_procedures", {})
+    for label, (ty, macro) in EVAL_NORMALISERS.items():
+        ce = ["cls", label]
+        rng = ctx.rng("evaluator/" + label)
+        st = dp.setdefault(label + " (normal forms of a pair)", {})
+        for it in range(n):
+            P = Poly(ty)
+            a = gen_cancel(rng, ty, rng.randint(1, 3))
+            pa = P.ev(a)
+            if len(pa) > 14:
+                continue
+            b = P.render(pa, rng)
+            c = P.render(P.perturb(pa, rng), rng)
+            try:
+                ta, tb, tc = to_term(env, a, ty), to_term(env, b, ty), to_term(env, c, ty)
+            except Exception as e:  # noqa
+                ctx.count("evaluator:gen-" + type(e).__name__)
+                continue
+            ok = canon_pair(env, ctx, label, ce, ta, tb, "polynomials equal by the independent evaluator")
+            st["equal pair: " + ("same normal form" if ok else "NOT same")] = st.get("equal pair: " + ("same normal form" if ok else "NOT same"), 0) + 1
+            oa = judge(env, ctx, label, ce, ta, record=False)
+            oc = judge(env, ctx, label, ce, tc)
+            if oa.kind == "ok" and oc.kind == "ok":
+                same = oa.rhs == oc.rhs
+                k = "different pair: " + ("SAME normal form" if same else "different normal forms")
+                st[k] = st.get(k, 0) + 1
+                if same:
+                    ctx.violation("%s:identifies-different-polynomials" % label,
+                                  "%s gives %s and %s (different polynomials) the same normal form %s" % (label, ta, tc, oa.rhs),
+                                  {"kind": "distinct", "label": label, "ce": ce, "t1": tj(ta), "t2": tj(tc)})
+            if macro:
+                macro_judge(env, ctx, macro, ta, tb, True, "equal polynomials")
+                macro_judge(env, ctx, macro, ta, tc, False, "different polynomials")
+    # nat: atoms of the normaliser whose value convert_to_poly would fold
+    rng = ctx.rng("evaluator/nat-opaque")
+    for _ in range(ctx.scale(40, 600)):
+        a, b = gen_nat_opaque(rng)
+        P = Poly("nat")
+        equal = P.ev(a) == P.ev(b)
+        macro_judge(env, ctx, "nat_norm", to_term(env, a, "nat"), to_term(env, b, "nat"), equal,
+                    "truncated subtraction is an atom of the normaliser")
+    # int_eq_macro and int_norm_eq: equations between linear / polynomial sides
+    rng = ctx.rng("evaluator/int-eq")
+    for _ in range(ctx.scale(40, 600)):
+        P = Poly("int")
+        a, b = (gen_arith(rng, "int", rng.randint(0, 2), ops="++*-n", atoms=False) for _ in range(2))
+        d = gen_arith(rng, "int", 1, ops="+*", atoms=False)
+        equal = rng.random() < 0.6
+        if equal:
+            a2, b2 = rng.choice([(("+", a, d), ("+", b, d)), (("-", a, d), ("-", b, d)), (P.render(P.ev(a), rng), P.render(P.ev(b), rng)),
+                                 (("-", a, b), ("c", 0))])
+        else:
+            a2, b2 = ("+", a, ("c", 1)), b
+        T = env.term
+        e1 = T.Eq(to_term(env, a, "int"), to_term(env, b, "int"))
+        e2 = T.Eq(to_term(env, a2, "int"), to_term(env, b2, "int"))
+        int_eq_judge(env, ctx, e1, e2, P.add(P.ev(a), P.ev(b), -1) == P.add(P.ev(a2), P.ev(b2), -1))
+        lab = "data.integer.int_norm_eq"
+        o = judge(env, ctx, lab, ["cls", lab], e1)
+        st = dp.setdefault(lab + " (conversion)", {})
+        k = "accepted" if o.kind == "ok" else "refused" if o.kind.startswith("own-error") else o.kind
+        st[k] = st.get(k, 0) + 1
+        if o.kind.startswith("own-error"):
+            # "Prove two linear equations are equal": an equation between integer terms is its domain
+            ctx.violation(lab + ":refuses-domain-term", "%s fails on the integer equation %s: %s" % (lab, e1, o.kind),
+                          {"kind": "conv", "label": lab, "ce": ["cls", lab], "term": tj(e1), "in_domain": True, "must_succeed": True})
+        if o.kind == "ok" and equal:
+            # the same equation moved around (and the swapped one: the sign is normalised) has one normal form
+            o2 = judge(env, ctx, lab, ["cls", lab], e2)
+            o3 = judge(env, ctx, lab, ["cls", lab], T.Eq(e1.rhs, e1.lhs))
+            for oo, other in ((o2, e2), (o3, T.Eq(e1.rhs, e1.lhs))):
+                if oo.kind == "ok":
+                    kk = "equivalent pair: " + ("same normal form" if oo.rhs == o.rhs else "NOT same")
+                    st[kk] = st.get(kk, 0) + 1
+                    if oo.rhs != o.rhs:
+                        ctx.violation(lab + ":noncanonical", "%s: %s -> %s but %s -> %s" % (lab, e1, o.rhs, other, oo.rhs),
+                                      {"kind": "canon", "label": lab, "ce": ["cls", lab], "t1": tj(e1), "t2": tj(other)})
+
+
+def int_eq_judge(env, ctx, e1, e2, equal):
+    goal = env.term.Eq(e1, e2)
+    st = ctx.coverage.setdefault("decision_procedures", {}).setdefault("int_eq_macro (macro)", {})
+    replay = {"kind": "int_eq", "t1": tj(e1), "t2": tj(e2), "equal": equal}
+    try:
+        with time_limit(60):
+            pt = env.ProofTerm("int_eq_macro", goal, [])
+            th = env.theory.check_proof(pt.export(), env.report.ProofReport(), check_level=0)
+        acc = True
+        if th.prop != goal or th.hyps:
+            ctx.violation("int_eq_macro-macro:wrong-sequent", "int_eq_macro on %s proved %s" % (goal, th), replay)
+    except Timeout:
+        return
+    except Exception as e:  # noqa
+        if not env.own_error(e):
+            ctx.violation("int_eq_macro-macro:crash:" + type(e).__name__, "int_eq_macro on %s raised %r" % (goal, e), replay)
+            return
+        acc = False
+    k = "accepted" if acc else "refused"
+    st[k] = st.get(k, 0) + 1
+    if equal and not acc:
+        ctx.violation("int_eq_macro-macro:rejects-equal-polynomials", "int_eq_macro refuses %s (both sides move to the same polynomial)" % goal, replay)
+    if not equal and acc:
+        ctx.violation("int_eq_macro-macro:accepts-different-polynomials", "int_eq_macro proves %s" % goal, replay)
 
 
 # ====================================================================== binder-name clashes (de Bruijn inputs)
@@ -1961,6 +2381,8 @@ def run(ctx):
     ctx.log("oracle done: %d cases" % ctx.coverage["evaluations"])
     stage_canon(ctx, env)
     ctx.log("canonicity done")
+    stage_evaluator(ctx, env)
+    ctx.log("evaluator pairs done")
     stage_clash(ctx, env)
     stage_corr_acnorm(ctx, env)
     stage_corr_conv(ctx, env)
@@ -2054,13 +2476,22 @@ def stage_corr_natnorm(ctx, env):
 def replay_one(ctx, env, r):
     k = r.get("kind")
     if k == "conv":
-        judge(env, ctx, r["label"], r["ce"], jt(env, r["term"]), r.get("in_domain", True), limit=60)
+        o = judge(env, ctx, r["label"], r["ce"], jt(env, r["term"]), r.get("in_domain", True), limit=60)
+        if r.get("must_succeed") and o.kind.startswith("own-error"):
+            ctx.violation(r["label"] + ":refuses-domain-term", "%s fails on %s: %s" % (r["label"], jt(env, r["term"]), o.kind), r)
     elif k in ("canon", "idem"):
         t1 = jt(env, r["t1"])
         t2 = jt(env, r["t2"]) if "t2" in r else t1
         canon_pair(env, ctx, r["label"], r["ce"], t1, t2, "replayed pair")
     elif k == "macro":
-        macro_pair(env, ctx, r["macro"], jt(env, r["t1"]), jt(env, r["t2"]))
+        macro_judge(env, ctx, r["macro"], jt(env, r["t1"]), jt(env, r["t2"]), r.get("equal", True), "replay")
+    elif k == "distinct":
+        o1 = judge(env, ctx, r["label"], r["ce"], jt(env, r["t1"]))
+        o2 = judge(env, ctx, r["label"], r["ce"], jt(env, r["t2"]))
+        if o1.kind == "ok" and o2.kind == "ok" and o1.rhs == o2.rhs:
+            ctx.violation("%s:identifies-different-polynomials" % r["label"], "same normal form %s for different polynomials" % o1.rhs, r)
+    elif k == "int_eq":
+        int_eq_judge(env, ctx, jt(env, r["t1"]), jt(env, r["t2"]), r["equal"])
 
 
 def replay_corpus(ctx, env):
@@ -2084,23 +2515,40 @@ def replay(ctx, rp):
 
 
 MANIFEST = {
-    "text": "Lean theorems about executable models: conv_lhs (every nesting of then/else/try/combination/arg/fun/arg1/binop/abs/sub/"
-            "repeat/bottom/top/top_sweep over rewrite rules returns an equation whose left side is the input; per combinator for arbitrary "
-            "argument conversions), conjNorm/disjNorm canonical + idempotent + equivalent under any strict total order, norm_sound (the "
-            "nat polynomial normaliser preserves the value in N), norm_idem_partial (normal-form shapes are fixed points), "
-            "norm_canonical_partial (Suc/x+0/x*0 only). Models tied to logic/conv.py, logic/logic.py, data/nat.py by differential "
-            "runs on generated inputs. On the implementation: every Conv subclass of the six modules (found by introspection) is run on "
-            "generated terms of its domain and judged by the real proof checker (equation, lhs exact, hypotheses within the supplied "
-            "conditions, eval agreement); every normaliser (nat, int, real, conj/disj, proplogic) on rearranged pairs for canonicity "
-            "and idempotence; nat_norm / real_norm macros on the same pairs.",
-    "note": "PARTIAL: canonicity of the nat polynomial normaliser under associativity/commutativity/distribution and "
-            "isNF(norm t) are not proved in Lean (checked on the implementation each run); integer and real normalisers, "
-            "proplogic.norm_full/sort_conj/sort_disj, nnf and the conditional rewrites are covered by the oracle only. The model's "
-            "equations carry no hypotheses. Trusted: Lean kernel + propext/Classical.choice/Quot.sound, the generators, "
+    "text": "PROVED IN LEAN (about executable models tied to the code by differential runs): conv_lhs / conv_lhs_combinators / "
+            "conv_lhs_needs_hypothesis -- every nesting of then/else/try/combination/arg/fun/arg1/binop/abs/sub/repeat/bottom/top/"
+            "top_sweep returns an equation whose left side is the input; conjNorm_canonical, disjNorm_canonical, conjNorm_idem, "
+            "disjNorm_idem, conjNorm_sound, disjNorm_sound -- logic.conj_norm / disj_norm are canonical (same member set => same "
+            "normal form), idempotent and equivalence preserving under any strict total order: these two are the ONLY normalisers "
+            "proved canonical in Lean. For the nat polynomial normaliser (data.nat.norm_full) Lean proves norm_sound (value "
+            "preserved in N), norm_idem_partial (normal-form shapes are fixed points) and norm_canonical_partial (Suc x = x + 1, "
+            "x + 0, x * 0 only); its canonicity under associativity / commutativity / distribution is NOT proved. "
+            "COMPARED AGAINST THE INDEPENDENT EVALUATOR ONLY (exact-rational polynomial arithmetic written in the harness, x^0 = 1 "
+            "for every x): canonicity, idempotence and separation of data.nat.norm_full, data.integer.simp_full / int_norm_conv, "
+            "data.real.real_norm_conv, and the decisions of the nat_norm, real_norm and int_eq_macro macros and of int_norm_eq, on "
+            "cancellation-rich expressions (t - t, t + (-t), a*b - b*a, t*0, 0*t as summands, factors and power bases with exponents "
+            "0/1/2 and n - n; constants 0 and 1 everywhere) against an independently rendered copy of their polynomial (same "
+            "normal form demanded; a refusal is a violation) and a perturbed polynomial (different normal form demanded); "
+            "proplogic.norm_full / sort_conj / sort_disj on member sets (oracle only). Fast evaluation against checked proof term: "
+            "for every Conv class overriding eval and for the nat_norm macro, on inputs where either one succeeds ('eval succeeds, "
+            "proof term raises' is a violation); real_norm is trusted (level 0, no proof term) and judged by the evaluator alone. "
+            "Every Conv subclass of the six modules is run on generated terms of its domain and judged by the real proof checker "
+            "(equation, lhs exact, hypotheses within the supplied conditions); binder-traversing conversions on de Bruijn inputs "
+            "with clashing bound names.",
+    "note": "The accepted/refused histogram of every decision procedure is in evidence coverage.decision_procedures. Not claimed: "
+            "nat subtraction and nat powers are atoms of norm_full (also between numerals); integer powers only with variable base "
+            "and exponent >= 1; real powers with non-natural exponents; t / t. The model's equations carry no hypotheses. Trusted: "
+            "Lean kernel + propext/Classical.choice/Quot.sound, the generators and the evaluator (150 lines), "
             "kernel.theory.check_proof as the acceptance judge (level-0 macros trusted, see C05), term_ord.fast_compare as the order (C03).",
-    "design_ref": "DESIGN.md 4/C10",
+    "design_ref": "DESIGN.md 4/C10, 8.6, 8.10",
 }
 FINDINGS = [
+    {"status": "fixed", "key": "data.nat.nat_conv:eval-without-proof", "commit": "fixes/C10-9.patch",
+     "what": "nat_conv.eval reported |- 5 - 3 = 2 (nat_eval computes truncated subtraction) while get_proof_term raises "
+             "ConvException: the fast evaluation claimed an equation the conversion cannot prove"},
+    {"status": "fixed", "key": "data.integer.int_norm_eq:refuses-domain-term", "commit": "fixes/C10-8.patch",
+     "what": "int_norm_eq raised ConvException on EVERY input: it tested t.is_int() on the equation itself (type bool) "
+             "instead of on its sides, so the procedure that decides integer equations in proof reconstruction decided nothing"},
     {"status": "fixed", "key": "data.real.real_norm_conv:noncanonical", "commit": "153ad93",
      "what": "real_norm_conv (and the real_norm macro's can_eval) gave x*y + x*z and x*z + x*y different normal forms: "
              "util.poly.compare_fst compared only the first factor and ignored powers"},
